@@ -17,6 +17,11 @@ BUDGET = {"quick": 100, "thorough": 900}
 def variants(n, es):
     """Program variants: plain; const-input node; setup nodes (fresh / pre-computed); tags."""
     yield dict(n=n, es=es, var="plain")
+    if es and n >= 2:
+        from ..spaces import kinds_rotating
+        es4 = [e for e in kinds_rotating(es, 2)]
+        es4 = [(i, j, ("pos" if k == "flag" else k), p) for (i, j, k, p) in es4]  # indexed positional / keyword uses, no flags
+        yield dict(n=n, es=es4, var="kinds")
     if n >= 2:
         # node 0 has only a constant input -> it is not a root
         yield dict(n=n, es=es, var="const", consts={0: [7]})
@@ -34,6 +39,8 @@ def alias_cases(n):
     if n >= 2:
         yield {0: ("t0", "S"), 1: ("t1", "S")}, "shared"  # 'S' names nodes 0 and 1
         yield {1: "n0"}, "tag_eq_id"  # node 1 carries a tag equal to node 0's id: the tag wins
+        # tags / ids that are proper substrings of another node's single string tag (must NOT match)
+        yield ({1: "xn0y", 0: "t0"} if n == 2 else {1: "xn0y", 0: "t0", 2: "t0z"}), "substr"
 
 
 def write_aliases(idx, tags, form, n):
@@ -53,6 +60,9 @@ def write_aliases(idx, tags, form, n):
             out.append("S")
             s -= {0, 1}
         return out + [f"n{i}" if i > 1 else f"t{i}" for i in sorted(s)]
+    if form == "substr":
+        # node 0 by its id 'n0' (a substring of node 1's tag), node 1 by its tag, node 2 by its tag 't0z' (which contains node 0's tag)
+        return [{0: "n0", 1: "xn0y", 2: "t0z"}.get(i, f"n{i}") for i in idx] if len(idx) != 1 or idx[0] != 0 else ["t0"]
     if form == "tag_eq_id":
         # the string 'n0' resolves to node 1 (tag wins over id); node 0 is written by reference
         return [("n0" if i == 1 else (["ref", 0] if i == 0 else f"n{i}")) for i in idx]
@@ -66,7 +76,7 @@ def cases(tier: str):
         for es in shapes(n):
             for var in variants(n, es):
                 for tags, form in alias_cases(n):
-                    if var["var"] != "plain" and form not in ("id",):
+                    if var["var"] not in ("plain",) and form not in ("id",):
                         continue
                     if n == 4 and form != "id" and q:
                         continue
